@@ -1,11 +1,13 @@
 #!/bin/bash
-# runs every registered check of the given tier sequentially; logs under .work/
+# runs every registered check of the given tier sequentially; logs under .work/logs
 tier=${1:-quick}
-cd /verif
+here="$(cd "$(dirname "$0")/.." && pwd)"
+cd "$here"
 mkdir -p .work/logs
 for p in $(/venv/bin/python -c "import json;print(' '.join(c['property_id'] for c in json.load(open('MANIFEST.json'))['checks']))"); do
   s=$(date +%s)
   /venv/bin/python vf/run.py $p --tier $tier > .work/logs/${p}_${tier}.log 2>&1
   rc=$?
-  echo "$p rc=$rc $(( $(date +%s) - s ))s $(grep "^$p tier" .work/logs/${p}_${tier}.log | cut -c1-160)"
+  echo "$p rc=$rc $(( $(date +%s) - s ))s $(grep "^$p tier" .work/logs/${p}_${tier}.log | cut -c1-170)"
+  grep "^INCONCLUSIVE\|^HARNESS-ERROR\|^VIOLATION" .work/logs/${p}_${tier}.log | head -5 | cut -c1-200
 done
